@@ -755,8 +755,10 @@ ssize_t ICACHE_FLASH_ATTR __mqtt_recv(struct mqtt_client *client)
                         break;
                     }
                 } else if (response.decoded.publish.qos_level == 2) {
-                    /* check if this is a duplicate */
-                    if (mqtt_mq_find(&client->mq, MQTT_CONTROL_PUBREC, &response.decoded.publish.packet_id) != NULL) {
+                    /* check if this is a duplicate: a PUBREC of this id still waits for its PUBREL
+                       (after the PUBREL the packet id is free again and names a new message) */
+                    msg = mqtt_mq_find(&client->mq, MQTT_CONTROL_PUBREC, &response.decoded.publish.packet_id);
+                    if (msg != NULL && msg->state != MQTT_QUEUED_COMPLETE) {
                         break;
                     }
 
@@ -1699,15 +1701,26 @@ void ICACHE_FLASH_ATTR mqtt_mq_clean(struct mqtt_message_queue *mq) {
 struct mqtt_queued_message* ICACHE_FLASH_ATTR mqtt_mq_find(struct mqtt_message_queue *mq, enum MQTTControlPacketType control_type, uint16_t *packet_id)
 {
     struct mqtt_queued_message *curr;
+    struct mqtt_queued_message *complete = NULL;
     for(curr = mqtt_mq_get(mq, 0); curr >= mq->queue_tail; --curr) {
         if (curr->control_type == control_type) {
-            if ((packet_id == NULL && curr->state != MQTT_QUEUED_COMPLETE) ||
-                (packet_id != NULL && *packet_id == curr->packet_id)) {
-                return curr;
+            if (packet_id == NULL) {
+                if (curr->state != MQTT_QUEUED_COMPLETE) {
+                    return curr;
+                }
+            } else if (*packet_id == curr->packet_id) {
+                /* complete messages stay in the queue until mqtt_mq_clean drops them: a message of
+                   this id that is still open comes before a complete one of an earlier exchange */
+                if (curr->state != MQTT_QUEUED_COMPLETE) {
+                    return curr;
+                }
+                if (complete == NULL) {
+                    complete = curr;
+                }
             }
         }
     }
-    return NULL;
+    return complete;
 }
 
 
